@@ -122,13 +122,31 @@ impl<S: Sc, L: HintGenerator<S> + Clone> Tx for Dt<S, L> {
                 true
             }
             "nnw" => {
+                // One NaturalNeighbor object and one result vector serve a warm-up query (on the first vertex) and then the
+                // real one: "result will be cleared initially" and the internal buffers must not leak between queries.
                 let nn = self.natural_neighbor();
                 let mut w = Vec::new();
-                nn.get_weights(pt(a[0], a[1]), &mut w);
+                if let Some(v0) = self.vertices().next() {
+                    nn.get_weights(v0.position(), &mut w);
+                    let _ = nn.interpolate(|_| S::of_f64(1.0), v0.position());
+                }
+                let q = pt(a[0], a[1]);
+                nn.get_weights(q, &mut w);
                 let _ = write!(out, "R {}", w.len());
                 for (v, x) in w {
                     let _ = write!(out, " {} {}", v.index(), bits(x));
                 }
+                // trailer: interpolate and interpolate_gradient of the constant 1 on the same object
+                let i1 = nn.interpolate(|_| S::of_f64(1.0), q);
+                let i2 = nn.interpolate_gradient(|_| S::of_f64(1.0), |_| [S::of_f64(0.0), S::of_f64(0.0)], S::of_f64(1.0), q);
+                match i1 {
+                    Some(x) => {
+                        let _ = write!(out, " 1 {}", bits(x));
+                    }
+                    None => out.push_str(" 0 0"),
+                }
+                // the value of the gradient variant is not judged (only whether there is one): 2 = Some
+                out.push_str(if i2.is_some() { " 2 0" } else { " 0 0" });
                 out.push('\n');
                 true
             }
@@ -718,10 +736,21 @@ pub fn exec_op<T: Tx>(t: &mut T, k: usize, toks: &[&str], out: &mut String) {
             let _ = writeln!(out, " {}", a.join(" "));
             let b = t.barycentric();
             let mut w = Vec::new();
-            b.get_weights(pt(a[0], a[1]), &mut w);
+            if let Some(v0) = t.vertices().next() {
+                b.get_weights(v0.position(), &mut w);
+                let _ = b.interpolate(|_| T::S::of_f64(1.0), v0.position());
+            }
+            let q = pt(a[0], a[1]);
+            b.get_weights(q, &mut w);
             let _ = write!(out, "R {}", w.len());
             for (v, x) in w {
                 let _ = write!(out, " {} {}", v.index(), bits(x));
+            }
+            match b.interpolate(|_| T::S::of_f64(1.0), q) {
+                Some(x) => {
+                    let _ = write!(out, " 1 {}", bits(x));
+                }
+                None => out.push_str(" 0 0"),
             }
             out.push('\n');
         }
